@@ -328,12 +328,19 @@ L_fcntl = L.fcntl
 L.os = OSProxy()
 L.fcntl = FcntlProxy()
 async def main(loop):
-    lf = LockFile(path, 1000, 1100)
+    # (the range starts low: a position that is taken relative to the
+    # minimum twice is still inside the file)
+    lf = LockFile(path, 10, 1100)
     log = os.open(path + ".log", os.O_WRONLY | os.O_APPEND | os.O_CREAT)
 
     # a process talks to several terminals; the tasks that talk to one
     # terminal share its Terminal object and hence its lock object
     locks = {no: ParallelMailboxLock(lf, no) for no in (1042, 1043)}
+    if sys.argv[9] == "1" and who %% 2:
+        # this process got the lock of terminal 1043 pickled (a Terminal
+        # handed over from another process)
+        import pickle
+        locks[1043] = pickle.loads(pickle.dumps(locks[1043]))
     # a process connected to two EtherCAT loops, which both have a terminal
     # 1042: the terminals get their locks the way Terminal does, from their
     # loop object, each loop with its own lock file
@@ -341,7 +348,7 @@ async def main(loop):
         from ebpfcat.ebpfcat import ParallelEtherCat
         for li in (0, 1):
             ec = ParallelEtherCat("vf%%d" %% li)
-            ec.mbx_lock_file = lf if li == 0 else LockFile(path + ".b", 1000, 1100)
+            ec.mbx_lock_file = lf if li == 0 else LockFile(path + ".b", 10, 1100)
             for no in (1042, 1043):
                 locks[no + 100000 * li] = ec.get_mbx_lock(no)
 
@@ -435,11 +442,13 @@ def xproc_round(rng, tmpdir, res):
     visitor = rng.random() < 0.5
     loops = rng.choice([1, 2])
     quitter = rng.random() < 0.5
+    pickled = rng.random() < 0.5
     procs = [subprocess.Popen([PYTHON, "-c", script, path, str(w), str(m),
                                str(rng.getrandbits(30)),
                                "1" if delays else "0",
                                "1" if visitor else "0", str(loops),
-                               "1" if quitter else "0"],
+                               "1" if quitter else "0",
+                               "1" if pickled else "0"],
                               stderr=subprocess.PIPE)
              for w in range(nproc)]
     errs = []
@@ -459,6 +468,9 @@ def xproc_round(rng, tmpdir, res):
                 injected_delays=delays, pickled_lock_file_copies=visitor)
     if visitor:
         res.count("xproc_rounds_with_pickled_lock_file_copies")
+    if pickled:
+        desc["pickled_lock_objects"] = True
+        res.count("xproc_rounds_with_pickled_lock_objects")
     if quitter:
         desc["cancelled_attempts"] = True
         res.count("xproc_rounds_with_cancelled_attempts")
